@@ -32,7 +32,7 @@ pub fn run_wire(ctx: &Ctx, rep: &mut Report) {
     rep.need("wire_connections_checked", 200);
     rep.need("wire_rotations_carried_out", 50);
     let mut r = ctx.rng("c14-wire");
-    let n = ctx.count(320, 8_000);
+    let n = ctx.count(1_600, 16_000);
     for k in 0..n {
         let seed = ctx.scenario_seed(r.next());
         let mut sr = Rng::new(seed);
